@@ -293,6 +293,10 @@ def run(rep, tier):
     shutil.copytree(REPO / "library", scratch2)
     add([{"op": "load", "name": "int"}, {"op": "touch", "name": "nat", "const": "verif_new_c2"}, {"op": "load", "name": "int"},
          {"op": "load", "name": "nat"}], str(scratch2))
+    scratch3 = wd / "lib_edit3"
+    shutil.copytree(REPO / "library", scratch3)
+    add([{"op": "load", "name": "nat"}, {"op": "touch", "name": "nat", "const": "verif_new_c3", "mtime_delta": -10},
+         {"op": "load", "name": "nat"}], str(scratch3))
     cyc = wd / "lib_cycle"
     shutil.copytree(REPO / "library", cyc)
     d = json.load(open(cyc / "logic.json", encoding="utf-8"))
